@@ -181,14 +181,18 @@ func generateCache(id int32, fv canCall, l int, okayCheck func([]reflect.Value) 
 	return cacher
 }
 
+// nilKey stands in a cache key for an input that is a nil interface (or invalid):
+// it cannot collide with any value a caller can pass, unlike the empty string.
+type nilKey struct{}
+
 func fillKeyFromInputs(key []any, in []reflect.Value) {
 	for i, v := range in {
 		if !v.IsValid() {
-			key[i] = ""
+			key[i] = nilKey{}
 			continue
 		}
 		if v.Type().Kind() == reflect.Interface && v.IsNil() {
-			key[i] = ""
+			key[i] = nilKey{}
 			continue
 		}
 		key[i] = v.Interface()
